@@ -215,7 +215,7 @@ def run_arith(chk, bindir, tier, build="debug"):
 
 def run_clock(chk, bindir, tier):
     threads, readings = (4, 2500) if tier == "quick" else (4, 25000)
-    p = core.run_cmd([os.path.join(bindir, "timearith"), "clock", str(threads), str(readings)], timeout=1800)
+    p = core.run_cmd([os.path.join(bindir, "timearith"), "clock", str(threads), str(readings)], timeout=600)
     evs = [json.loads(x) for x in p.stdout.splitlines() if x.strip()]
     path = os.path.join(chk.work, "clock.ndjson")
     core.write_ndjson(path, evs)
